@@ -273,6 +273,16 @@ type siteRow struct {
 	pos      string
 }
 
+// addrefRow: a call of (*Snapshot).addRef — who takes a new reference on a snapshot, on what,
+// and which locks are held.  rootOf is the text of the Writer expression when the receiver
+// is X.root or a local that was assigned from X.root in this function.
+type addrefRow struct {
+	fn, base, rootOf, closure string
+	fresh                     bool
+	locks                     []heldLock
+	pos                       string
+}
+
 type chanMake struct {
 	fn, target string
 	cap        string
@@ -301,21 +311,23 @@ func (w *concWalker) chanMakeOf(e ast.Expr) (string, bool) {
 }
 
 type concWalker struct {
-	p        *cpkg
-	file     string
-	fd       *ast.FuncDecl
-	fn       string
-	recvObj  *ast.Object
-	env      map[*ast.Object]*cty
-	locks    []heldLock
-	closure  string
-	accesses *[]accessRow
-	calls    *[]callRow
-	spawns   *[]callRow
-	sites    *[]siteRow
-	makes    *[]chanMake
-	nest     int
-	wantSite bool
+	p         *cpkg
+	file      string
+	fd        *ast.FuncDecl
+	fn        string
+	recvObj   *ast.Object
+	env       map[*ast.Object]*cty
+	locks     []heldLock
+	closure   string
+	accesses  *[]accessRow
+	calls     *[]callRow
+	spawns    *[]callRow
+	sites     *[]siteRow
+	makes     *[]chanMake
+	addrefs   *[]addrefRow
+	rootAlias map[*ast.Object]string // local <- X.root
+	nest      int
+	wantSite  bool
 	// freshness
 	freshDecl map[*ast.Object]token.Pos // local declared from a composite literal of a tabulated struct
 	escapes   map[*ast.Object][]token.Pos
@@ -676,6 +688,22 @@ func (w *concWalker) funcLit(fl *ast.FuncLit, kind string) {
 	w.locks, w.closure = savedLocks, savedClosure
 }
 
+// rootOfExpr: e is X.root with X of type (*)Writer -> text of X, else "".
+func (w *concWalker) rootOfExpr(e ast.Expr) string {
+	if pe, ok := e.(*ast.ParenExpr); ok {
+		return w.rootOfExpr(pe.X)
+	}
+	sel, ok := e.(*ast.SelectorExpr)
+	if !ok || sel.Sel.Name != "root" {
+		return ""
+	}
+	t := w.p.deref(w.typeOf(sel.X))
+	if t.kind == "named" && t.name == "Writer" {
+		return types.ExprString(sel.X)
+	}
+	return ""
+}
+
 func (w *concWalker) call(c *ast.CallExpr, isGo, isDefer bool) {
 	p := w.p
 	// sync/atomic
@@ -743,6 +771,17 @@ func (w *concWalker) call(c *ast.CallExpr, isGo, isDefer bool) {
 	// call edges
 	names, recv := w.callee(c)
 	for _, n := range names {
+		if n == "Snapshot.addRef" && recv != nil {
+			row := addrefRow{fn: w.fn, base: types.ExprString(recv), closure: w.closure, fresh: w.isFresh(recv, c.Pos()),
+				locks: copyLocks(w.locks), pos: w.posStr(c.Pos())}
+			row.rootOf = w.rootOfExpr(recv)
+			if id, ok := recv.(*ast.Ident); ok && id.Obj != nil {
+				if wr, ok := w.rootAlias[id.Obj]; ok {
+					row.rootOf = wr
+				}
+			}
+			*w.addrefs = append(*w.addrefs, row)
+		}
 		row := callRow{caller: w.fn, callee: n, closure: w.closure, pos: w.posStr(c.Pos())}
 		if recv != nil {
 			row.base = types.ExprString(recv)
@@ -860,6 +899,15 @@ func (w *concWalker) stmt(s ast.Stmt) {
 	case *ast.AssignStmt:
 		for _, r := range x.Rhs {
 			w.expr(r, "r")
+		}
+		if len(x.Lhs) == len(x.Rhs) {
+			for i, r := range x.Rhs {
+				if wr := w.rootOfExpr(r); wr != "" {
+					if id, ok := x.Lhs[i].(*ast.Ident); ok && id.Obj != nil {
+						w.rootAlias[id.Obj] = wr
+					}
+				}
+			}
 		}
 		if w.wantSite && len(x.Lhs) == len(x.Rhs) {
 			for i, r := range x.Rhs {
@@ -1222,6 +1270,7 @@ func concSection(root string) (string, string, []string) {
 	var calls, spawns []callRow
 	var sites []siteRow
 	var makes []chanMake
+	var addrefs []addrefRow
 	fileNames := make([]string, 0, len(p.files))
 	for n := range p.files {
 		fileNames = append(fileNames, n)
@@ -1241,7 +1290,7 @@ func concSection(root string) (string, string, []string) {
 				continue
 			}
 			w := &concWalker{p: p, file: fn, fd: fd, fn: funcDisplayName(fd), env: map[*ast.Object]*cty{}, closure: "CNone",
-				accesses: &accesses, calls: &calls, spawns: &spawns, sites: &sites, makes: &makes, inSelect: map[ast.Node]bool{}}
+				accesses: &accesses, calls: &calls, spawns: &spawns, sites: &sites, makes: &makes, addrefs: &addrefs, rootAlias: map[*ast.Object]string{}, inSelect: map[ast.Node]bool{}}
 			w.wantSite = concSiteFuncs[w.fn]
 			if fd.Recv != nil {
 				w.declareFields(fd.Recv)
@@ -1311,6 +1360,8 @@ func concSection(root string) (string, string, []string) {
 	sb.WriteString("Inductive site_kind := SSelect | SSend | SRecv | SClose | SWgAdd | SWgDone | SWgWait.\n")
 	sb.WriteString("Inductive chan_dir := DSend | DRecv.\n")
 	sb.WriteString("Record site_row := mk_site { s_func : string; s_kind : site_kind; s_cases : list (string * chan_dir);\n  s_default : bool; s_deferred : bool; s_nest : Z; s_pos : string }.\n")
+	sb.WriteString("(* a call of Snapshot.addRef: function, receiver text, receiver is a fresh local, the Writer\n   expression X when the receiver is X.root or a local assigned from X.root, closure kind, locks held *)\n")
+	sb.WriteString("Record addref_row := mk_addref { r_func : string; r_base : string; r_fresh : bool; r_root_of : string;\n  r_closure : closure_kind; r_locks : list held_lock; r_pos : string }.\n")
 	sb.WriteString("Record exit_row := mk_exit { e_func : string; e_returns : Z; e_dones : Z; e_done_deferred_first : bool; e_done_last : bool }.\n\n")
 
 	sb.WriteString("Definition accesses : list access_row := [\n")
@@ -1354,6 +1405,20 @@ func concSection(root string) (string, string, []string) {
 		}
 		fmt.Fprintf(&sb, "  mk_site %s %s [%s] %s %s %d %s", coqStr(r.fn), kindName[r.kind], strings.Join(cs, "; "), coqBool(r.hasDef), coqBool(r.deferred), r.nest, coqStr(r.pos))
 		if i+1 < len(sites) {
+			sb.WriteString(";")
+		}
+		sb.WriteString("\n")
+	}
+	sb.WriteString("].\n\n")
+	sb.WriteString("Definition snapshot_addrefs : list addref_row := [\n")
+	for i, r := range addrefs {
+		var ls []string
+		for _, l := range r.locks {
+			ls = append(ls, fmt.Sprintf("mk_held %s %s %s", coqStr(l.base), coqStr(l.name), coqBool(l.excl)))
+		}
+		fmt.Fprintf(&sb, "  mk_addref %s %s %s %s %s [%s] %s", coqStr(r.fn), coqStr(r.base), coqBool(r.fresh), coqStr(r.rootOf), r.closure,
+			strings.Join(ls, "; "), coqStr(r.pos))
+		if i+1 < len(addrefs) {
 			sb.WriteString(";")
 		}
 		sb.WriteString("\n")
